@@ -87,6 +87,7 @@ fn dispatch_idles_body(&mut self, idles_cell: &mut Vec<IdleCallback<'l, Data>>, 
         ensures final(self).idles_done(), final(self).stop_flag() == old(self).stop_flag(), final(self).ready_flag() == old(self).ready_flag(),
 //@ enditem
 //@ item src/loop_logic.rs / impl EventLoop<'l, Data> / fn dispatch props=C13 ret=r
+//@ rw R12 * <<Duration::ZERO>> => <<crate::ext_dur::duration_zero()>>
 //@ spec
         ensures
             // C13: a dispatch that returns Ok has run the idle phase (after the event phase) ...
